@@ -2,6 +2,7 @@ package checks
 
 import (
 	"fmt"
+	"verif/harness/internal/att"
 
 	"github.com/cuteLittleDevil/go-jt808/attachment"
 	"github.com/cuteLittleDevil/go-jt808/protocol/model"
@@ -233,6 +234,14 @@ func c16Sessions(c *core.Collector, x *Ctx) {
 	c.Rule = "sessions through the real connection loop (net.Pipe): files with chunks left out before the first 0x1212 (gaps at start / middle / end, single chunks, all but one), the 0x9212 must list exactly the maximal missing ranges; exactly those chunks are then resent and the next 0x9212 must say complete; all five dialects and all partition modes. distinct by hash of (plan, partition)"
 	n := c.N(1500, 60000)
 	sessions := c.Counter("sessions_with_gaps")
+	// one attachment server per dialect over loopback TCP as well (every seventh session is also played there)
+	addrs := map[int]string{}
+	for _, d := range gen.Dialects {
+		if a, err := att.StartTCP(attachment.WithFileEventerFunc(func() attachment.FileEventer { return &att.Recorder{} }), attachment.WithActiveSafetyType(d)); err == nil {
+			addrs[int(d)] = a
+		}
+	}
+	tcpSessions := c.Counter("tcp_sessions_with_gaps")
 	core.ParallelFor(n, ncpu(), func(i int) {
 		g := gen.G{Rand: core.NewRand(c.Seed, "c16s", uint64(i))}
 		p := attGenPlan(g, i, true)
@@ -260,6 +269,19 @@ func c16Sessions(c *core.Collector, x *Ctx) {
 		}
 		for _, v := range viol {
 			c.Violate(v[0], v[1]+" ["+p.Gen+", partition "+p.Mode+"]", p)
+		}
+		if a, ok := addrs[p.Dialect]; ok && i%7 == 3 && len(viol) == 0 {
+			var v2 [][2]string
+			var inc2 bool
+			if !guard(c, func() any { return p }, func() { v2, inc2 = attRun(p, true, a) }) && !inc2 {
+				c.Eval()
+				if hasGap {
+					tcpSessions.Add(1)
+				}
+				for _, v := range v2 {
+					c.Violate(v[0], v[1]+" ["+p.Gen+", partition "+p.Mode+", loopback TCP]", p)
+				}
+			}
 		}
 		if hasGap && i%211 == 0 && c.WantSample() {
 			c.Sample(map[string]any{"dialect": p.Dialect, "files": p.Files, "partition": p.Mode})
